@@ -29,7 +29,8 @@ SED2 = 's/\\\\cref\\{ylab\\}/Table~7/g\n'
 DEFS = '\\newcommand{\\ydef}[1]{defbody #1}\n'
 
 FILES = {'a.glsdefs': GLS, 'b.glsdefs': GLS2, 'a.sed': SED, 'b.sed': SED2, 'defs.tex': DEFS,
-         'lang.tex': '\\usepackage[german]{babel}\\selectlanguage{russian}\n'}
+         'lang.tex': '\\usepackage[german]{babel}\\selectlanguage{russian}\n',
+         'r.txt': '# replacements\nso dass & sodass\n\nybodyx yy & Z\n', 'd.tex': DEFS}
 
 
 def templates(rnd, u):
@@ -81,6 +82,11 @@ def templates(rnd, u):
     add('seqs-writer', '\\[ a=b, \\] %s \\begin{equation} c \\end{equation}' % w(68), seqs=True)
     add('repl-writer', '%s so dass %s' % (w(69), w(70)), repl=['so dass & sodass\n'])
     add('repl-reader', '%s so dass %s' % (w(71), w(72)))
+    add('replfile-writer', '%s so dass %s' % (w(84), w(85)), repl_file='r.txt')
+    add('replfile-reader', '%s so dass %s so dass' % (w(86), w(87)), repl_file='r.txt')
+    add('replfile-reader2', '%s so dass %s' % (w(88), w(89)), repl_file='r.txt', ml=True, lang='en-GB')
+    add('defsfile-writer', '%s \\ydef{x} \\renewcommand{\\ydef}[1]{changed} %s' % (w(90), w(91)), defs_file='d.tex')
+    add('defsfile-reader', '%s \\ydef{y} %s' % (w(92), w(93)), defs_file='d.tex')
     add('unkn-writer', '\\zzunkA %s \\begin{zzenvA} \\zzunkB' % w(73), unkn=True)
     add('unkn-reader', '\\zzunkC %s \\zzunkA' % w(74), unkn=True)
     add('error-writer', '%s $x \\verb|a' % w(75))
@@ -103,12 +109,12 @@ class C17(core.Check):
     rule = ('pool: 6-12 (document, options) pairs per case drawn from a catalogue of %d state-carrying templates (writer / '
             'reader pairs for definitions, glossary files, cleveref sed files, theorem definitions, babel options and '
             'language switches, formula rotation, enumerations, --nosp, --extr, --pack / --dcls / --defs / --seqs / '
-            '--repl / --unkn differences, error recovery) plus generated documents; baseline: each element alone in a '
+            '--repl / --unkn differences, replacement and definition files read once per process and shared by all calls, error recovery) plus generated documents; baseline: each element alone in a '
             'fresh interpreter; history: a random sequence of 4-30 calls over the pool in one interpreter, with every '
             'writer before its reader at least once and immediate repetitions. server: 6-10 requests to one --as-server '
             'process (sequential and 8 concurrent clients) vs a fresh server per request. Judged: equality of '
             '(text, map | parts, stderr). non-trivial = sequence of >= 2 calls; distinct = distinct (pool, sequence)'
-            % 42)
+            % 47)
     level_text = ('Exploration over call histories: independence from history is a statement about all call sequences; '
                   'each case compares every call of a random sequence with the same call in a fresh process, and the '
                   'pool is built from pairs designed to carry state from a writer to a reader. The state-diff monitor '
@@ -217,7 +223,8 @@ class C17(core.Check):
     # ------------------------------------------------------------------
     def start_server(self, d, port):
         cmd = [env.PY, '-m', 'yalafi.shell', '--no-config', '--as-server', str(port), '--lt-command',
-               '%s -S %s' % (env.PY, shellrun.FAKELT), '--packages', '*,cleveref']
+               '%s -S %s' % (env.PY, shellrun.FAKELT), '--packages', '*,cleveref', '--replace', 'r.txt',
+               '--define', 'd.tex']
         planf = os.path.join(d, 'plan.json')
         if not os.path.exists(planf):
             with open(planf, 'w') as f:
